@@ -20,7 +20,8 @@ fn empty_placeholder(v: &Value, cur: &str) -> Option<String> {
             if o.is_empty() {
                 return Some(cur.to_string());
             }
-            o.iter().find_map(|(k, x)| empty_placeholder(x, if is_tag_key(k) { k } else { cur }))
+            o.iter()
+                .find_map(|(k, x)| empty_placeholder(x, if is_tag_key(k) { k } else { cur }))
         }
         _ => None,
     }
@@ -30,6 +31,10 @@ pub fn msg_oracle(c: &MutCase, obs: &mut Obs) -> Vec<Violation> {
     let mut out = Vec::new();
     let ops = msg_ops(&c.mt);
     let x = c.enveloped();
+    if crate::refs::has_long_number(&x) {
+        obs.excluded("amount-beyond-f64-precision (C06 reports it)");
+        return out;
+    }
     let m = match (ops.parse_full)(&x) {
         Ok(m) => m,
         Err(_) => {
@@ -45,16 +50,31 @@ pub fn msg_oracle(c: &MutCase, obs: &mut Obs) -> Vec<Violation> {
     match (ops.full_from_json)(&m.json) {
         Err(e) => {
             if !e.is_panic() {
-                out.push(viol(format!("C08|msg|MT{mt}|json-rejected"), format!("own JSON is rejected: {}\n{}", e.text(), m.json)));
+                out.push(viol(
+                    format!("C08|msg|MT{mt}|json-rejected"),
+                    format!("own JSON is rejected: {}\n{}", e.text(), m.json),
+                ));
             }
         }
         Ok(m2) => {
             if m2.json != m.json {
                 let tag = diff_tag(&m.json, &m2.json, "").unwrap_or_default();
-                out.push(viol(format!("C08|msg|MT{mt}|json-differs|{tag}"), format!("JSON round trip differs at {tag}:\n{}\nvs\n{}", m.json, m2.json)));
+                out.push(viol(
+                    format!("C08|msg|MT{mt}|json-differs|{tag}"),
+                    format!(
+                        "JSON round trip differs at {tag}:\n{}\nvs\n{}",
+                        m.json, m2.json
+                    ),
+                ));
             }
             if m2.mt_message != m.mt_message {
-                out.push(viol(format!("C08|msg|MT{mt}|mt-differs-after-json"), format!("message rebuilt from JSON serialises differently:\n{}\nvs\n{}", m.mt_message, m2.mt_message)));
+                out.push(viol(
+                    format!("C08|msg|MT{mt}|mt-differs-after-json"),
+                    format!(
+                        "message rebuilt from JSON serialises differently:\n{}\nvs\n{}",
+                        m.mt_message, m2.mt_message
+                    ),
+                ));
             }
         }
     }
@@ -62,12 +82,24 @@ pub fn msg_oracle(c: &MutCase, obs: &mut Obs) -> Vec<Violation> {
     match plugin_publish(&m.json) {
         Err(e) => {
             if !e.is_panic() {
-                out.push(viol(format!("C08|msg|MT{mt}|publish-rejected"), format!("publish_mt rejects the JSON of a parsed message: {}", e.text())));
+                out.push(viol(
+                    format!("C08|msg|MT{mt}|publish-rejected"),
+                    format!(
+                        "publish_mt rejects the JSON of a parsed message: {}",
+                        e.text()
+                    ),
+                ));
             }
         }
         Ok(t) => {
             if t != m.mt_message {
-                out.push(viol(format!("C08|msg|MT{mt}|publish-differs"), format!("publish_mt text differs from to_mt_message:\n{}\nvs\n{}", t, m.mt_message)));
+                out.push(viol(
+                    format!("C08|msg|MT{mt}|publish-differs"),
+                    format!(
+                        "publish_mt text differs from to_mt_message:\n{}\nvs\n{}",
+                        t, m.mt_message
+                    ),
+                ));
             }
         }
     }
@@ -75,34 +107,62 @@ pub fn msg_oracle(c: &MutCase, obs: &mut Obs) -> Vec<Violation> {
     match plugin_parse(&x) {
         Err(e) => {
             if !e.is_panic() {
-                out.push(viol(format!("C08|msg|MT{mt}|plugin-parse-rejected"), format!("parse_mt rejects a message the typed API accepts: {}", e.text())));
+                out.push(viol(
+                    format!("C08|msg|MT{mt}|plugin-parse-rejected"),
+                    format!(
+                        "parse_mt rejects a message the typed API accepts: {}",
+                        e.text()
+                    ),
+                ));
             }
         }
         Ok((data, _meta)) => {
             if data != m.json {
                 let tag = diff_tag(&m.json, &data, "").unwrap_or_default();
-                out.push(viol(format!("C08|msg|MT{mt}|plugin-parse-differs|{tag}"), format!("parse_mt JSON differs from the typed JSON at {tag}")));
+                out.push(viol(
+                    format!("C08|msg|MT{mt}|plugin-parse-differs|{tag}"),
+                    format!("parse_mt JSON differs from the typed JSON at {tag}"),
+                ));
             }
         }
     }
     // (4) no empty placeholder for an absent optional
     if let Some(f) = m.json.get("fields") {
         if let Some(tag) = empty_placeholder(f, "") {
-            out.push(viol(format!("C08|msg|MT{mt}|empty-placeholder|{tag}"), format!("JSON carries an empty string/object/array at {tag}: {}", f)));
+            out.push(viol(
+                format!("C08|msg|MT{mt}|empty-placeholder|{tag}"),
+                format!("JSON carries an empty string/object/array at {tag}: {}", f),
+            ));
         }
     }
     out
 }
 
 pub fn field_oracle(c: &FieldRt, obs: &mut Obs) -> Vec<Violation> {
+    field_oracle_with(c, obs, false)
+}
+
+pub fn field_oracle_with(c: &FieldRt, obs: &mut Obs, judge_undetermined: bool) -> Vec<Violation> {
     let mut out = Vec::new();
     let ops = field_ops(&c.ty);
-    if spec_of(&c.spec_ty).g.verdict(&c.content) == crate::spec::Verdict::MustReject {
-        obs.excluded("field:outside-documented-format");
+    if crate::refs::has_long_number(&c.content) {
+        obs.excluded("amount-beyond-f64-precision (C06 reports it)");
         return out;
     }
+    match spec_of(&c.spec_ty).g.verdict(&c.content) {
+        crate::spec::Verdict::MustReject => {
+            obs.excluded("field:outside-documented-format");
+            return out;
+        }
+        crate::spec::Verdict::Undetermined if !judge_undetermined => {
+            // judged only in the deterministic grid, so that such signatures do not depend on the seed
+            obs.excluded("field:undetermined-format (judged in the grid sub-check)");
+            return out;
+        }
+        _ => {}
+    }
     let v1 = match &c.letter {
-        Some(l) => (ops.parse_variant)(&c.content, if l.is_empty() { None } else { Some(l.as_str()) }, c.base.as_deref()),
+        Some(l) => (ops.parse_variant)(&c.content, Some(l.as_str()), c.base.as_deref()),
         None => (ops.parse)(&c.content),
     };
     let v1 = match v1 {
@@ -114,19 +174,36 @@ pub fn field_oracle(c: &FieldRt, obs: &mut Obs) -> Vec<Violation> {
     };
     obs.class("field:accepted");
     obs.nontrivial_str(&format!("{}|{:?}|{}", c.ty, c.letter, c.content));
-    obs.sample("field", || json!({"field": c.ty, "content": c.content, "json": v1.json}));
+    obs.sample(
+        "field",
+        || json!({"field": c.ty, "content": c.content, "json": v1.json}),
+    );
     match (ops.from_json)(&v1.json) {
         Err(e) => {
             if !e.is_panic() {
-                out.push(viol(format!("C08|field|{}|json-rejected", c.ty), format!("content {:?} -> JSON {} is rejected: {}", c.content, v1.json, e.text())));
+                out.push(viol(
+                    format!("C08|field|{}|json-rejected", c.ty),
+                    format!(
+                        "content {:?} -> JSON {} is rejected: {}",
+                        c.content,
+                        v1.json,
+                        e.text()
+                    ),
+                ));
             }
         }
         Ok(v2) => {
-            if v2.json != v1.json {
-                out.push(viol(format!("C08|field|{}|json-differs", c.ty), format!("content {:?}: {} vs {}", c.content, v1.json, v2.json)));
+            if v2.json != v1.json || v2.debug != v1.debug {
+                out.push(viol(
+                    format!("C08|field|{}|json-differs", c.ty),
+                    format!("content {:?}: {} vs {}", c.content, v1.json, v2.json),
+                ));
             }
             if v2.swift != v1.swift {
-                out.push(viol(format!("C08|field|{}|mt-differs-after-json", c.ty), format!("content {:?}: {:?} vs {:?}", c.content, v1.swift, v2.swift)));
+                out.push(viol(
+                    format!("C08|field|{}|mt-differs-after-json", c.ty),
+                    format!("content {:?}: {:?} vs {:?}", c.content, v1.swift, v2.swift),
+                ));
             }
         }
     }
@@ -136,15 +213,39 @@ pub fn field_oracle(c: &FieldRt, obs: &mut Obs) -> Vec<Violation> {
 pub fn run(ctx: &Ctx) {
     ctx.add_rule("message level: per type, valid / mutated texts in an envelope (LF/CRLF); accepted => from_value(to_value(m)) equal in JSON and MT text, publish_mt(JSON) == to_mt_message, parse_mt JSON == typed JSON, no empty placeholder; field level: per field type (114), accepted documented-format contents => from_value(to_value(v)) equal in JSON and MT; non-trivial = accepted; distinct by input");
     let to_json = |c: &MutCase| serde_json::to_value(c).unwrap();
-    ctx.run_generated("msg", MSGS.len(), ctx.n(800, 20000), 1800, &|sh, src: &mut Src| crate::props::c02::gen_msg_case(mt_of_shard(sh), src), &msg_oracle, &to_json);
+    ctx.run_generated(
+        "msg",
+        MSGS.len(),
+        ctx.n(800, 20000),
+        1800,
+        &|sh, src: &mut Src| crate::props::c02::gen_msg_case(mt_of_shard(sh), src),
+        &msg_oracle,
+        &to_json,
+    );
     let to_json2 = |c: &FieldRt| serde_json::to_value(c).unwrap();
-    ctx.run_generated("field", FIELDS.len(), ctx.n(1500, 40000), 300, &gen_field_case, &field_oracle, &to_json2);
+    ctx.run_generated(
+        "field",
+        FIELDS.len(),
+        ctx.n(1500, 40000),
+        300,
+        &gen_field_case,
+        &field_oracle,
+        &to_json2,
+    );
+    let k = ctx.n(4, 20) as u64;
+    ctx.run_enumerated(
+        "field-grid",
+        FIELDS.len(),
+        &|sh| crate::props::c02::field_grid(sh, k),
+        &|c: &FieldRt, obs: &mut Obs| field_oracle_with(c, obs, true),
+        &to_json2,
+    );
 }
 
 pub fn replay(_ctx: &Ctx, sub: &str, case: &Value) -> Vec<Violation> {
-    if sub == "field" {
+    if sub == "field" || sub == "field-grid" {
         let c: FieldRt = serde_json::from_value(case.clone()).expect("replay case");
-        field_oracle(&c, &mut Obs::default())
+        field_oracle_with(&c, &mut Obs::default(), true)
     } else {
         let c: MutCase = serde_json::from_value(case.clone()).expect("replay case");
         msg_oracle(&c, &mut Obs::default())
